@@ -432,7 +432,10 @@ impl<R: Round, const B: Word> FBig<R, B> {
         let context = Context::<R>::new(24);
         if B != 2 {
             let rounded: Rounded<Repr<2>> = context.convert_base(self.repr.clone());
-            rounded.and_then(|v| v.into_f32_internal())
+            // the converted value can carry one digit more than the precision asks for
+            rounded
+                .and_then(|v| context.repr_round(v))
+                .and_then(|v| v.into_f32_internal())
         } else {
             context
                 .repr_round_ref(&self.repr)
@@ -463,7 +466,10 @@ impl<R: Round, const B: Word> FBig<R, B> {
         let context = Context::<HalfEven>::new(53);
         if B != 2 {
             let rounded: Rounded<Repr<2>> = context.convert_base(self.repr.clone());
-            rounded.and_then(|v| v.into_f64_internal())
+            // the converted value can carry one digit more than the precision asks for
+            rounded
+                .and_then(|v| context.repr_round(v))
+                .and_then(|v| v.into_f64_internal())
         } else {
             context
                 .repr_round_ref(&self.repr)
@@ -605,7 +611,10 @@ impl<const B: Word> Repr<B> {
         let context = Context::<HalfEven>::new(24);
         if B != 2 {
             let rounded: Rounded<Repr<2>> = context.convert_base(self.clone());
-            rounded.and_then(|v| v.into_f32_internal())
+            // the converted value can carry one digit more than the precision asks for
+            rounded
+                .and_then(|v| context.repr_round(v))
+                .and_then(|v| v.into_f32_internal())
         } else {
             context
                 .repr_round_ref(self)
@@ -663,7 +672,10 @@ impl<const B: Word> Repr<B> {
         let context = Context::<HalfEven>::new(53);
         if B != 2 {
             let rounded: Rounded<Repr<2>> = context.convert_base(self.clone());
-            rounded.and_then(|v| v.into_f64_internal())
+            // the converted value can carry one digit more than the precision asks for
+            rounded
+                .and_then(|v| context.repr_round(v))
+                .and_then(|v| v.into_f64_internal())
         } else {
             context
                 .repr_round_ref(self)
